@@ -88,9 +88,8 @@ def corrupt_sig(eng, wire):
     rv = ref.parse_data(w)
     _, vs, ve = rv['#region']['sigvalue']
     pos = [vs, (vs + ve) // 2, ve - 1][eng.choice(3, 'sigpos')]
-    nv = eng.int('sigbyte', 0, 255)
-    eng.assume(nv != w[pos])
-    w[pos] = nv
+    delta = eng.int('sigdelta', 1, 255)          # any different value, relative to the (ideal) signature byte
+    w[pos] = (w[pos] + delta) % 256
     return bwrap(w)
 
 
@@ -333,8 +332,19 @@ def h_history(eng, case):
         vA = lvs_validator(Checker(C['model'], {}), app, WA['anchor'][1])
         vB = lvs_validator(Checker(C['model'], {}), app, WB['anchor'][1])
         return [vA, vB]
-    order = [[(0, 0), (1, 0)], [(1, 0), (0, 0)], [(1, 0)], [(0, 0), (0, 0), (1, 0)]][case['order']]
-    r, out, face, loop, err = run_validation(eng, WA, [pktA], mk, order, certs, {})
+    # a second packet signed with the same (genuine) key, whose key locator names ANOTHER certificate of that key
+    # - other issuer id / version - which was never issued and cannot be retrieved: no chain, must be rejected,
+    # whatever the validator has seen before
+    from ndn.encoding import Name
+    s2 = mk_signer('ecdsa', None, 'mid')[0]
+    ghost = [bytes(c) for c in WA['mid'][0][:-2]] + [bytes(c) for c in Name.from_str('/y/v=7')]
+    s2.key_locator_name = ghost
+    pktGhost = tobytes(enc.make_data('/k/a/d/2', enc.MetaInfo(), b'payload', s2))
+    behaviour = {tuple(ghost): ['nack', 'silence'][eng.choice(2, 'ghost_fetch')]}
+    order = [[(0, 0), (1, 0)], [(1, 0), (0, 0)], [(1, 0)], [(0, 0), (0, 0), (1, 0)],
+             [(0, 1)], [(0, 0), (0, 1)], [(0, 0), (1, 1), (0, 1)]][case['order']]
+    expect_pkt = {0: lambda vi: vi == 0, 1: lambda vi: False}
+    r, out, face, loop, err = run_validation(eng, WA, [pktA, pktGhost], mk, order, certs, behaviour)
     if 'ctor_exc' in out or r is None:
         eng.fail('validation-terminates', 'ctor-or-deadlock', repr(out.get('ctor_exc'))[:100])
         return
@@ -342,11 +352,11 @@ def h_history(eng, case):
         if isinstance(got, tuple):
             eng.fail('validator-returns-a-verdict', got[1])
             continue
-        exp = vi == 0          # only the validator anchored in hierarchy A may accept the packet
+        exp = expect_pkt[pi](vi)   # only the validator anchored in hierarchy A may accept the genuine packet
         eng.check(bool(got) == exp, 'verdict-independent-of-history', {'validator': 'AB'[vi], 'got': repr(got),
                                                                       'order': repr(order)},
-                  sig='validator-%s-%s-after-%d-earlier-validations' % ('AB'[vi], 'accepts' if got else 'rejects',
-                                                                       order.index((vi, pi))))
+                  sig='validator-%s-%s-packet-%d-after-%d-earlier-validations' % (
+                      'AB'[vi], 'accepts' if got else 'rejects', pi, order.index((vi, pi))))
     eng.reach('end')
 
 
@@ -368,6 +378,6 @@ def cases(tier, seed):
     for kind in ('rsa', 'ecdsa', 'hmac'):
         for v in ('valid', 'corrupt', 'wrong-name', 'signed-by-other-key'):
             cs.append(('ctor', {'anchor_kind': kind, 'variant': v}))
-    for o in range(4):
+    for o in range(7):
         cs.append(('history', {'order': o}, {'weight': 5}))
     return cs
